@@ -231,16 +231,7 @@ Proof.
     + specialize (IH sy fi og pe fin). destruct (fold_left core_step r _) as [[[sy' fi'] og'] pe']. exact IH.
     + specialize (IH (close sy pe off) fi og None fin).
       destruct (fold_left core_step r _) as [[[sy' fi'] og'] pe']. destruct IH as (I1 & I2 & I3).
-      repeat split; [|exact I2|exact I3]. rewrite I1, close_pend. cbn [pend_entry app]. rewrite <- !app_assoc, app_nil_r. reflexivity.
+      repeat split; [|exact I2|exact I3]. rewrite I1, close_pend. cbn [pend_entry app]. rewrite <- !app_assoc. reflexivity.
     + specialize (IH sy fi og pe fin). destruct (fold_left core_step r _) as [[[sy' fi'] og'] pe']. exact IH.
 Qed.
 
-(* the index of a text whose first line is an acceptable MODULE line *)
-Lemma index_of_lines first rest fin text :
-  split_lines text = ((0, first) :: rest, fin) -> module_line_ok (strip_cr first) = true ->
-  index_of_text text =
-    Some (mkIdx (i_module_info_of (fold_left process_line ((0, first) :: rest) creator_init) fin)
-                (svb_finish (fold_left svb_push (file_entries rest) svb_init))
-                (svb_finish (fold_left svb_push (origin_entries rest) svb_init))
-                (dedup_s (List.length (entries rest fin)) (sort_s (entries rest fin)))).
-Proof. Abort.
